@@ -162,13 +162,35 @@ def missing_value(co: Codec, cn: Codec, t):
         tt = cn.res(t)
         if isinstance(tt, N) and not tt.args:
             try:
-                src = co.fq(N(tt.name))
-                d, _ = co.env.lookup(src)
-                if isinstance(d, Rec):
-                    return conv(co, src, cn, t, zero_value(co, src))
+                src = co.res(co.fq(N(tt.name)))        # the type may have been renamed and kept as an alias
+                if isinstance(src, N):
+                    d, _ = co.env.lookup(src)
+                    if isinstance(d, Rec):
+                        return conv(co, src, cn, t, zero_value(co, src))
             except (CodecError, KeyError, AttributeError, TypeError):
                 pass
     return zero_value(cn, t)
+
+
+def dropped_value_dont_care(co: Codec, t_old, cn: Codec, val):
+    tt = co.res(t_old)
+    if isinstance(tt, U) and tt.is_optional:
+        if val is None:
+            return
+        tt, val = co.res(tt.cases[0][1]), val[1]
+    if isinstance(tt, (V, S)):
+        for x in val:
+            dropped_value_dont_care(co, tt.item, cn, x)
+        return
+    if isinstance(tt, N) and not tt.args:
+        try:
+            tgt = cn.res(cn.fq(N(tt.name)))
+            if isinstance(tgt, N) and isinstance(cn.env.lookup(tgt)[0], Rec) and isinstance(co.env.lookup(tt)[0], Rec):
+                conv(co, tt, cn, tgt, val)
+        except IntOverflow:
+            raise OutOfRange()
+        except (CodecError, KeyError, AttributeError, TypeError):
+            return
 
 
 def conv(co: Codec, to, cn: Codec, tn, v):
@@ -205,6 +227,12 @@ def conv(co: Codec, to, cn: Codec, tn, v):
                 out.append(conv(co, old[name][0], cn, t, old[name][1]))
             else:
                 out.append(missing_value(co, cn, t))
+        # a field that the target no longer has: generated readers still decode it through the conversion of its (record) type before dropping
+        # it, so a number that does not fit there may or may not be reported - the value set is outside the crisp semantics
+        new_names = {name for name, _ in fn}
+        for name, (t_old, val) in old.items():
+            if name not in new_names:
+                dropped_value_dont_care(co, t_old, cn, val)
         return out
     if isinstance(to, V) and isinstance(tn, V):
         return [conv(co, to.item, cn, tn.item, x) for x in v]
